@@ -2,6 +2,7 @@
 # usage: try_seed.sh <patch.diff> <prop> [<prop>...]   — applies a seeded change to /repo, runs the checks, reverts
 patch=$1; shift
 cd /repo || exit 2
+if git status --short | grep -v data.bin | grep -q .; then echo "REFUSING: /repo has uncommitted changes (commit them first)"; exit 2; fi
 git apply --check "$patch" || { echo "PATCH DOES NOT APPLY"; exit 2; }
 git apply "$patch"
 for p in "$@"; do
